@@ -256,6 +256,26 @@ fn redirect_stdout_devnull() {
     }
 }
 
+/// Pin a worker to one CPU. The code under test calls mprotect twice per
+/// translated block; a process that migrates between CPUs accumulates them in
+/// its TLB-shootdown mask and every mprotect then interrupts all of them, which
+/// makes 16 workers slower than one. Failure to pin is harmless.
+fn pin_to_cpu(shard: usize) {
+    unsafe {
+        let mut allowed: libc::cpu_set_t = std::mem::zeroed();
+        if libc::sched_getaffinity(0, std::mem::size_of::<libc::cpu_set_t>(), &mut allowed) != 0 {
+            return;
+        }
+        let cpus: Vec<usize> = (0..libc::CPU_SETSIZE as usize).filter(|c| libc::CPU_ISSET(*c, &allowed)).collect();
+        if cpus.is_empty() {
+            return;
+        }
+        let mut set: libc::cpu_set_t = std::mem::zeroed();
+        libc::CPU_SET(cpus[shard % cpus.len()], &mut set);
+        libc::sched_setaffinity(0, std::mem::size_of::<libc::cpu_set_t>(), &set);
+    }
+}
+
 fn work_dir() -> PathBuf {
     let p = PathBuf::from(format!("{}/.work", VERIF_ROOT));
     let _ = std::fs::create_dir_all(&p);
@@ -315,6 +335,7 @@ fn spawn_shard(def: &'static CheckDef, ctx: Ctx, replay_case: Option<Value>) -> 
     if pid == 0 {
         // child
         redirect_stdout_devnull();
+        pin_to_cpu(shard);
         let mut rec = Rec::new(ctx, shm);
         let result = std::panic::catch_unwind(std::panic::AssertUnwindSafe(|| {
             match &replay_case {
